@@ -41,6 +41,10 @@ pub fn line_menu() -> Vec<&'static str> {
         "18446744073709551615 END",
         "18446744073709551616 END",
         "20 Y = Z(1) + \"é\" + %",
+        // the same text with more trailing blanks / a CR (ranges of unterminated strings, REM
+        // and DATA run to the end of the line)
+        "10 PRINT \"  ",
+        "10 REM é \r",
     ]
 }
 
@@ -183,6 +187,23 @@ pub fn run(thorough: bool) -> Report {
             .collect();
         for (s, d, t) in v {
             note(format!("{} (long file)", s), d, t, &mut by_sig);
+        }
+    }
+
+    // lines longer than 16-bit offsets reach, with a multi-byte character across byte 65535
+    {
+        let mut jobs: Vec<String> = vec![];
+        for pad in [32760usize, 32761, 32762, 32763, 40000] {
+            for tail in ["\" : B$ = 5", "\" + 1", "", "\": GOTO 99"] {
+                jobs.push(format!("10 PRINT \"{}{}", "é".repeat(pad), tail));
+                jobs.push(format!("10 X = 1\n20 REM {}\n30 PRINT \"{}{}", "x".repeat(10), "é".repeat(pad), tail));
+            }
+            jobs.push(format!("10 PRINT {}1 +", " ".repeat(pad * 2)));
+        }
+        files += jobs.len() as u64;
+        let v: Vec<(String, String, String)> = jobs.par_iter().filter_map(|t| check_file(t).map(|(s, d)| (s, d, t.clone()))).collect();
+        for (s, d, t) in v {
+            note(format!("{} (long line)", s), d, t, &mut by_sig);
         }
     }
 
